@@ -19,6 +19,8 @@ package main
 // box) that the contract leaves free, derived from the observed minimum.
 
 import (
+	"crypto/sha1"
+	"encoding/hex"
 	"encoding/json"
 	"fmt"
 	"os"
@@ -648,6 +650,12 @@ func c17Check(v *c17Views, exps [][]c17Exp, covered [][]c17Pos, kinds []map[c17P
 
 // ------------------------------------------------------------ replay
 
+// c17Key identifies the abstract case (distinctness) without carrying its text.
+func c17Key(raw []byte) string {
+	h := sha1.Sum(raw)
+	return hex.EncodeToString(h[:10])
+}
+
 func c17Nontrivial(c *c17Case) bool {
 	for _, sh := range c.Sheets {
 		if len(sh.Merges) > 0 {
@@ -676,7 +684,7 @@ func c17Replay(i int, raw []byte) Result {
 	if err := json.Unmarshal(raw, &c); err != nil {
 		return fail("decode", "decode", err.Error(), nil)
 	}
-	res := Result{OK: true, Nontrivial: c17Nontrivial(&c), Key: string(raw), Evals: 4}
+	res := Result{OK: true, Nontrivial: c17Nontrivial(&c), Key: c17Key(raw), Evals: 4}
 	path, err := c17WriteFile(c17Workbook(&c).Members(), ".xlsx")
 	if err != nil {
 		panic(err)
